@@ -45,6 +45,10 @@ func Deep(v ssa.Value) ssa.Value {
 		if !ok {
 			return v
 		}
+		if a, bound := override[p]; bound {
+			v = a
+			continue
+		}
 		site := uniqueSite[p.Parent()]
 		if site == nil {
 			return v
@@ -94,4 +98,27 @@ func bindingOf(fv *ssa.FreeVar) ssa.Value {
 		return nil
 	}
 	return found
+}
+
+// override binds parameters of functions that have several call sites to the
+// arguments of one particular call, for the time a rule evaluates conditions
+// taken from that call (see rules.Env.withBindings).
+var override = map[*ssa.Parameter]ssa.Value{}
+
+// SetOverride installs the bindings and returns a function that removes them.
+func SetOverride(m map[ssa.Value]ssa.Value) func() {
+	var added []*ssa.Parameter
+	for k, v := range m {
+		if p, ok := k.(*ssa.Parameter); ok {
+			if _, dup := override[p]; !dup {
+				override[p] = v
+				added = append(added, p)
+			}
+		}
+	}
+	return func() {
+		for _, p := range added {
+			delete(override, p)
+		}
+	}
 }
